@@ -2,6 +2,7 @@ import NucleoVerif.Driver.Chars
 import NucleoVerif.Driver.Matcher
 import NucleoVerif.Driver.Utf32
 import NucleoVerif.Driver.Pattern
+import NucleoVerif.Driver.Boxcar
 /-! Model driver: one request per line on stdin, one answer per line on stdout.
 Answers: `ok` | `DIFF <what the model says>` | `ORACLE <violated clause>` | `bad-op`. -/
 open NucleoVerif NucleoVerif.Driver
@@ -19,6 +20,8 @@ def answer (line : String) : String :=
   | "U" :: _ => uLine ws
   | "P" :: _ => pLine ws
   | "S" :: _ => sLine ws
+  | "B" :: _ => bLine ws
+  | "L" :: _ => lLine ws
   | _ => "bad-op"
 
 partial def loop (h : IO.FS.Stream) (out : IO.FS.Stream) : IO Unit := do
